@@ -562,15 +562,17 @@ static void build_wild(const std::string& tier) {
     std::vector<NS> nss = {{"##any", true, true, true, true}, {"##other", false, true, false, true}, {"##targetNamespace", true, false, false, false}, {"##local", false, false, true, false},
                            {"urn:x", false, true, false, false}, {"##local urn:x", false, true, true, false}, {"##targetNamespace ##local", true, false, true, false}};
     struct CH { const char* xml; char nsclass; int decl; };  // decl 0 none, 1 declared + valid, 2 declared + invalid content
+    // no-namespace children: n has a global declaration (imported no-namespace schema n.xsd), m has none
     std::vector<CH> chs = {{"<t:a/>", 't', 1}, {"<t:a>z</t:a>", 't', 2}, {"<t:d/>", 't', 0}, {"<x:x>5</x:x>", 'x', 1}, {"<x:x>z</x:x>", 'x', 2}, {"<x:y/>", 'x', 0},
-                           {"<n/>", 'l', 0}, {"<u:z xmlns:u=\"urn:u\"/>", 'o', 0}, {"", '-', 0}, {"<t:a/><t:a/>", '2', 1}};
+                           {"<n/>", 'l', 1}, {"<n>z</n>", 'l', 2}, {"<m/>", 'l', 0}, {"<u:z xmlns:u=\"urn:u\"/>", 'o', 0}, {"", '-', 0}, {"<t:a/><t:a/>", '2', 1}};
     for (auto& ns : nss) for (int pc = 0; pc < 3; pc++) {
         BCase bc;
         bc.desc = std::string("wild namespace='") + ns.attr + "' processContents=" + WPC_ATTR[pc];
         std::string s = XSD_HEAD;
-        s += "<xs:import namespace=\"urn:x\" schemaLocation=\"x.xsd\"/>\n";
+        s += "<xs:import namespace=\"urn:x\" schemaLocation=\"x.xsd\"/>\n<xs:import schemaLocation=\"n.xsd\"/>\n";
         s += R_AND_W + w_decl("<xs:element ref=\"t:e\"/>");
         s += "<xs:element name=\"a\"><xs:complexType/></xs:element>\n";
+        bc.files["/v/n.xsd"] = "<xs:schema xmlns:xs=\"http://www.w3.org/2001/XMLSchema\">\n<xs:element name=\"n\"><xs:complexType/></xs:element>\n</xs:schema>\n";
         s += std::string("<xs:element name=\"e\"><xs:complexType><xs:sequence><xs:any namespace=\"") + ns.attr + "\" processContents=\"" + WPC_ATTR[pc] + "\"/></xs:sequence></xs:complexType></xs:element>\n</xs:schema>\n";
         bc.files["/v/s.xsd"] = s;
         bc.files["/v/x.xsd"] = "<xs:schema xmlns:xs=\"http://www.w3.org/2001/XMLSchema\" targetNamespace=\"urn:x\" elementFormDefault=\"qualified\">\n<xs:element name=\"x\" type=\"xs:integer\"/>\n</xs:schema>\n";
